@@ -116,6 +116,7 @@ IDENTS = ["ts_main", "fg2", "Data01", "x9", "users_space", "a1", "SECONDARY", '"
 PATHS = ["s3://bucket/path/t1", "/user/hive/warehouse/db.db/t", "hdfs://nn:8020/data/x_1", "gs://b-1/dir.2/", "wasb://c@acc/p"]
 WORDS = ["weekly sales", "t1", "Raw events 2024", "x", "do not drop!"]
 DELIMS = ["|", ":", "$", "~", "^", "!", "@", "%"]
+DQ_WORDS = ['"customer\'s orders"', '"it\'s"', '"plain words"']       # double-quoted values; an apostrophe inside is text
 
 
 def _q(s):
@@ -275,7 +276,7 @@ def _mk_with_options(rnd, b, st):
 def _mk_options(rnd, b, st):
     n = rnd.choice([1, 1, 2, 3])
     ks = rnd.sample(["description", "friendly_name", "kms_key_name", "labels_x"], n)
-    vs = [_q(rnd.choice(WORDS)) for _ in ks]
+    vs = [rnd.choice([_q(rnd.choice(WORDS)), _q(rnd.choice(WORDS)), rnd.choice(DQ_WORDS)]) for _ in ks]
     return "%s (%s)" % (_kw("OPTIONS", st), ", ".join("%s=%s" % kv for kv in zip(ks, vs))), {"options": [{k: v} for k, v in zip(ks, vs)]}
 
 
@@ -352,7 +353,7 @@ CATALOGUE = [
     Clause("distkey", "redshift", "field", _mk_distkey),
     # Snowflake
     Clause("cluster-by-par", "snowflake", "field", _mk_cluster_by_par),
-    Clause("comment-eq", "snowflake", "base", _mk_eq("COMMENT", "comment", [_q(w) for w in WORDS])),
+    Clause("comment-eq", "snowflake", "base", _mk_eq("COMMENT", "comment", [_q(w) for w in WORDS] + DQ_WORDS)),
     Clause("data-retention", "snowflake", "props", _mk_int_eq("DATA_RETENTION_TIME_IN_DAYS", "data_retention_time_in_days")),
     Clause("max-data-extension", "snowflake", "props", _mk_int_eq("MAX_DATA_EXTENSION_TIME_IN_DAYS", "max_data_extension_time_in_days")),
     Clause("change-tracking", "snowflake", "props", _mk_change_tracking),
